@@ -220,3 +220,77 @@ Example C02_refuted_aliasing_argument :
   aobserve p_arg_then_reassign = Some [VStr (b_aa ++ b_bb)] /\
   observe cfg_repaired p_arg_then_reassign = VOk [VStr (b_aa ++ b_bb)].
 Proof. vm_compute. repeat split. Qed.
+
+(* ================================================================== *)
+(* Round 4 — the evaluator issues its storage operations under the machine's discipline.
+
+   theories/MemEval.v: `ieval / iexec / iexec_loop / iexec_block` repeat Lang.eval / exec / exec_loop /
+   exec_block branch for branch (every construct: operators, string / number / array built-ins,
+   interpolation, index read / assignment, push / pop / reverse through index chains, blocks, if, loops with
+   comot / next, user calls with parameters and every kind of return value, plans) and issue, next to
+   Lang's abstract result, the storage operations runtime.rs performs at that point (`eval_ops`).
+   `run_mem c` executes the issued operations on the storage machine WITH reclamation (configuration c) and
+   reads the printed values back through the machine's heap. *)
+Require Import NS.theories.MemEval NS.proofs.MemEvalProofs.
+
+(* the instrumented evaluator is Lang's evaluator: same printed values, same ending, for every
+   program, plan, epsilon and fuel (Fuel / Unsupp endings included) *)
+Theorem C02_memeval_mirror : forall p eps fuel prog,
+  (fst (snd (irun p eps fuel prog)), ending_of_res (snd (snd (irun p eps fuel prog)))) = run_impl p eps fuel prog.
+Proof. exact memeval_mirror_lemma. Qed.
+Print Assumptions C02_memeval_mirror.
+
+(* (i) the reclamation-free machine, run on the issued operations, prints exactly run_impl's output:
+   Lang's environment and the machine's scopes hold the same values slot for slot (variables are
+   addressed by position), the temporaries of the current and of every suspended expression are the
+   machine's temporaries *)
+Theorem C02_memeval_twin : forall p eps fuel prog,
+  aobserve (eval_ops p eps fuel prog) = Some (fst (run_impl p eps fuel prog)).
+Proof. exact memeval_twin_lemma. Qed.
+Print Assumptions C02_memeval_twin.
+
+(* progress: an operation the reclamation-free machine executes is never ill-formed for the machine
+   with reclamation *)
+Theorem C02_step_not_ill : forall o st ast ast', MemInv st -> Sim st ast ->
+  astep ast o = Some ast' -> step cfg_repaired st o <> MIll.
+Proof. exact step_not_ill. Qed.
+Print Assumptions C02_step_not_ill.
+
+(* the evaluator only issues sequences the machine accepts, and executing them never reads dead
+   storage nor breaks an allocator precondition: for every program, plan, epsilon, fuel *)
+Theorem C02_memeval_ops_wellformed : forall p eps fuel prog,
+  exists st, run cfg_repaired init_state (eval_ops p eps fuel prog) = MOk st /\ MemInv st.
+Proof. exact memeval_ops_wellformed_lemma. Qed.
+Print Assumptions C02_memeval_ops_wellformed.
+
+(* DESIGN's full statement.  For every program, plan, epsilon and fuel: running the issued operations
+   on the machine WITH reclamation (per-iteration and per-call frame resets, slot recycling, relocation
+   of return values; strings and arrays of all sizes) prints — read back through the heap at the end of
+   the run — exactly the values `run_impl` prints, and the run ends alike.  (It holds for Fuel / Unsupp
+   endings too: the operations issued up to that point are a prefix.) *)
+Theorem C02_memeval_erases_to_eval : forall p eps fuel prog,
+  run_mem cfg_repaired p eps fuel prog = Some (run_impl p eps fuel prog).
+Proof. exact memeval_erases_to_eval_lemma. Qed.
+Print Assumptions C02_memeval_erases_to_eval.
+
+(* the same for the configuration regenerated from the source on every check *)
+Theorem C02_memeval_erases_to_eval_source : forall p eps fuel prog,
+  run_mem cfg_source p eps fuel prog = Some (run_impl p eps fuel prog).
+Proof. exact memeval_erases_to_eval_source_lemma. Qed.
+Print Assumptions C02_memeval_erases_to_eval_source.
+
+(* Non-vacuity: a program with a loop, a user call returning a frame string, and push — its trace has
+   frame resets (2 iterations + 2 calls), pool returns and promotions, and prints ["aabb!", "aabb!"] *)
+Example C02_ex_memeval_loop_call :
+  run_mem cfg_repaired None (fzero false) 50 ex_loop_call =
+    Some ([VArr [VStr (ex_aa ++ ex_bb ++ [33%Z]); VStr (ex_aa ++ ex_bb ++ [33%Z])]], Done) /\
+  r_counts (memeval_report None (fzero false) 50 ex_loop_call) = mkCounts 4 2 6 /\
+  length (eval_ops None (fzero false) 50 ex_loop_call) = 78.
+Proof. vm_compute. repeat split. Qed.
+
+(* The program-level statement is false for the shipped variant (aliasing clone, before 8134a3d): the
+   same instrumented run of `make x get "aa" add "bb"  x get x  shout(x)` faults on the machine *)
+Example C02_refuted_memeval_alias_clone :
+  run_mem cfg_alias_clone None (fzero false) 50 ex_selfassign = None /\
+  run_mem cfg_repaired None (fzero false) 50 ex_selfassign = Some ([VStr (ex_aa ++ ex_bb)], Done).
+Proof. vm_compute. split; reflexivity. Qed.
